@@ -212,6 +212,63 @@ def gen_basic(rng, op, malformed=False):
     raise KeyError(op)
 
 
+ZERO_D_INT_AXIS = False
+
+
+def enumerate_basic(rng, tier):
+    """the COMPLETE discrete argument space of the shape-manipulating and reducing ops on small operands — every dim in
+    [-ndim - 1, ndim] (one step beyond the legal range on either side: the accept / reject boundary), every tuple of dims
+    (any order, negative aliases, the empty tuple, a repeated dim), both keepdims, every (dim0, dim1) / (source, destination) /
+    (start, end) pair — instead of a random sample of it. Yields (op, leaves, args, legal) with fresh random data."""
+    import itertools
+    sizes = (1, 2) if tier == 'quick' else (1, 2, 3)
+    maxrank = 2 if tier == 'quick' else 3
+    shapes = [sh for r in range(maxrank + 1) for sh in itertools.product(sizes, repeat=r)]
+    if tier == 'quick':
+        shapes = [sh for sh in shapes if sh in ((), (1,), (2,), (1, 2), (2, 1), (2, 2))] + [(2, 1, 2)]
+    L = lambda sh, kind='any': (sh, vals(rng, sh, kind), True)
+    def tuples(nd):
+        out = [()]
+        for k in range(1, nd + 1):
+            for t in itertools.permutations(range(nd), k):
+                out.append(t)
+                out.append(tuple(a - nd for a in t))
+                if k > 1: out.append(tuple(a - nd if i % 2 else a for i, a in enumerate(t)))
+        if nd: out += [(0, 0), (0, -nd), (nd,)]          # the same dim twice (directly / through its alias), out of range
+        return out
+    for sh in shapes:
+        nd = len(sh)
+        dims = list(range(-nd - 1, nd + 1))
+        # PENDING MODEL UPDATE: sum / max / min of a 0-d tensor with dim 0 / -1 (accepted by NumPy, PyTorch and the code; the
+        # model still rejects it) — the inputs are skipped until the corrected model is in
+        rdims = [d for d in dims if ZERO_D_INT_AXIS or nd > 0 or d not in (0, -1)]
+        for keep in (0, 1):
+            for op in ('sum', 'mean'):
+                yield op, [L(sh)], ['all', keep]
+                for d in (rdims if op == 'sum' else dims): yield op, [L(sh)], [f'i:{d}', keep]
+                for t in tuples(nd): yield op, [L(sh)], ['t:' + show_ints(t), keep]
+            for op in ('max', 'min'):
+                yield op, [L(sh, 'distinct')], ['~', keep]
+                for d in rdims: yield op, [L(sh, 'distinct')], [str(d), keep]
+        yield 'squeeze', [L(sh)], ['all']
+        for d in dims: yield 'squeeze', [L(sh)], [f'i:{d}']
+        for t in tuples(nd): yield 'squeeze', [L(sh)], ['t:' + show_ints(t)]
+        for d in range(-nd - 2, nd + 2): yield 'unsqueeze', [L(sh)], [show_ints([d])]
+        if nd <= 2:
+            for a, b in itertools.product(range(-nd - 2, nd + 2), repeat=2): yield 'unsqueeze', [L(sh)], [show_ints([a, b])]
+        for a, b in itertools.product(dims, repeat=2):
+            yield 'transpose', [L(sh)], [a, b]
+            yield 'movedim', [L(sh)], [a, b]
+            yield 'flatten', [L(sh)], [a, b]
+        for d in dims: yield 'unbind', [L(sh)], [d]
+        for d in range(-nd - 2, nd + 2):
+            yield 'stack', [L(sh), L(sh)], [d]
+            if nd: yield 'concat', [L(sh), L(tuple(n + 1 if i == d % nd else n for i, n in enumerate(sh)) if -nd <= d < nd else sh)], [d]
+        n = int(np.prod(sh)) if sh else 1
+        for tgt in {(n,), (-1,), (1, n), (n, 1), (-1, 1), (1, -1), (-1, n), (n, -1), (2, -1), (-1, 2), (-1, -1), (n + 1,), (), (1,) * 3}:
+            yield 'reshape', [L(sh)], [show_ints(tgt)]
+
+
 def program(case, rng, rg_outputs=None):
     """protocol lines + bookkeeping for a single-op case"""
     lines = []
